@@ -706,6 +706,26 @@ class NF:
     def call(self, e: ast.Call, env: Env):
         if any(k.arg is None and isinstance(k.value, ast.Dict) for k in e.keywords):
             e = _expand_dict_keywords(e)
+        if any(isinstance(a, ast.Starred) and isinstance(a.value, (ast.Call, ast.Tuple, ast.List, ast.Name)) for a in e.args):
+            # f(*(a, b, c)) / f(*helper(..)) with the helper returning a tuple display: the elements are the arguments
+            new_args, changed = [], False
+            for a in e.args:
+                if isinstance(a, ast.Starred) and isinstance(a.value, (ast.Call, ast.Tuple, ast.List, ast.Name)):
+                    try:
+                        t = self.ev(a.value, env)
+                    except Opaque:
+                        t = None
+                    if t is not None and t[0] == "tuple" and not any(isinstance(x, tuple) and x and x[0] == "splat" for x in t[1]):
+                        for x in t[1]:
+                            self._splat_n = getattr(self, "_splat_n", 0) + 1
+                            nm = f"splat__{self._splat_n}"
+                            env.vars[nm] = x
+                            new_args.append(ast.copy_location(ast.Name(id=nm, ctx=ast.Load()), a))
+                        changed = True
+                        continue
+                new_args.append(a)
+            if changed:
+                e = ast.copy_location(ast.Call(func=e.func, args=new_args, keywords=e.keywords), e)
         f = e.func
         fs = u(f)
         # --- builtins / repo helpers
